@@ -214,6 +214,12 @@ def class_specs(draw, name, earlier, allow_hooks=True):
             c['swe'] = 'defaults'
         c['rec'] = draw(st.integers(0, 7)) == 0
         c['attrs'] = draw(st.integers(0, 9)) == 0
+    if params and not c.get('dc') and not c.get('swe') and draw(st.integers(0, 9 if not c['extra'] else 3)) == 0:
+        # a private attribute: dumpable only through _yatiml_attributes
+        own = [q['n'] for q in params]
+        c['hidden'] = draw(st.sampled_from(own))
+        if allow_hooks and draw(st.booleans()):
+            c['attrs'] = True
     return c
 
 
